@@ -89,6 +89,12 @@ def enumerate_cases(tier, seed):
           continue
         deep = "all" if (tier == "thorough" or (full and i % 8 == 0)) else ("none" if full else "two")
         out.append(dict(layer=layer, slot=slot, qcls=qc, opts=opts, deep=deep, _seed=seed))
+  # histories that start from a non-initial model state: the target layer frozen (layer.trainable = False) before the
+  # round trip, and a statistics-only batch normalisation (no trainable weight at all)
+  for layer in ("QDense", "QConv2D", "QLSTM", "QBatchNormalization", "QConv2DBatchnorm"):
+    out.append(dict(layer=layer, slot="weight", qcls="quantized_bits", opts={"bits": 4}, deep="two", frozen=True, _seed=seed))
+  out.append(dict(layer="QBatchNormalization", slot="weight", qcls="quantized_bits", opts={"bits": 4}, deep="two",
+                  stats_only=True, _seed=seed))
   return out
 
 
@@ -131,6 +137,8 @@ def build(case, default=False):
   elif layer == "QActivation":
     lyr = qkeras.QActivation(act, **kw)
   elif layer == "QBatchNormalization":
+    if case.get("stats_only"):
+      kw = dict(kw, center=False, scale=False)
     lyr = qkeras.QBatchNormalization(gamma_quantizer=wq, beta_quantizer=base_w, **kw)
   elif layer == "QConv2DBatchnorm":
     lyr = qkeras.QConv2DBatchnorm(2, 2, kernel_quantizer=wq, bias_quantizer=base_w, activation=act, **kw)
@@ -144,6 +152,8 @@ def build(case, default=False):
                                          activation=act, **kw)
   else:
     lyr = qkeras.QScaleShift(weight_quantizer=wq, bias_quantizer=base_w, activation=act, **kw)
+  if case.get("frozen"):
+    lyr.trainable = False
   x = lyr(inp)
   if len(x.shape) > 2:
     x = L.Flatten(name="flat")(x)
